@@ -1,0 +1,26 @@
+//go:build verif
+
+// Contracts for deductive verification (govc). Comment-only file (build tag verif).
+// The logging helpers write to the process's log output only; their bodies (standard library log package)
+// are not verified: the contracts are ASSUMED and listed as trusted in the evidence of C19.
+
+package log
+
+//@ func Info
+//@   trusted
+//@   modifies nothing
+//@ func Infof
+//@   trusted
+//@   modifies nothing
+//@ func Error
+//@   trusted
+//@   modifies nothing
+//@ func Errorf
+//@   trusted
+//@   modifies nothing
+//@ func Warning
+//@   trusted
+//@   modifies nothing
+//@ func Warningf
+//@   trusted
+//@   modifies nothing
